@@ -182,3 +182,61 @@ pub fn hex(b: &[u8]) -> String {
     }
     s
 }
+
+/// serde helper: byte vectors as hex strings (keeps replay files small)
+pub mod hexbytes {
+    use serde::{Deserialize, Deserializer, Serializer};
+    pub fn serialize<S: Serializer>(b: &Vec<u8>, s: S) -> Result<S::Ok, S::Error> {
+        let mut out = String::with_capacity(b.len() * 2);
+        for x in b {
+            out.push_str(&format!("{:02x}", x));
+        }
+        s.serialize_str(&out)
+    }
+    pub fn deserialize<'de, D: Deserializer<'de>>(d: D) -> Result<Vec<u8>, D::Error> {
+        let s = String::deserialize(d)?;
+        let mut out = Vec::with_capacity(s.len() / 2);
+        let b = s.as_bytes();
+        let mut i = 0;
+        while i + 1 < b.len() {
+            let h = (b[i] as char).to_digit(16).ok_or_else(|| serde::de::Error::custom("bad hex"))?;
+            let l = (b[i + 1] as char).to_digit(16).ok_or_else(|| serde::de::Error::custom("bad hex"))?;
+            out.push((h * 16 + l) as u8);
+            i += 2;
+        }
+        Ok(out)
+    }
+}
+
+/// serde helper: list of (key, value) byte pairs as hex strings
+pub mod hexpairs {
+    use serde::{Deserialize, Deserializer, Serialize, Serializer};
+    fn enc(b: &[u8]) -> String {
+        let mut out = String::with_capacity(b.len() * 2);
+        for x in b {
+            out.push_str(&format!("{:02x}", x));
+        }
+        out
+    }
+    fn dec(s: &str) -> Vec<u8> {
+        let b = s.as_bytes();
+        let mut out = Vec::with_capacity(b.len() / 2);
+        let mut i = 0;
+        while i + 1 < b.len() {
+            let h = (b[i] as char).to_digit(16).unwrap_or(0);
+            let l = (b[i + 1] as char).to_digit(16).unwrap_or(0);
+            out.push((h * 16 + l) as u8);
+            i += 2;
+        }
+        out
+    }
+    pub fn serialize<S: Serializer>(v: &Vec<Vec<(Vec<u8>, Vec<u8>)>>, s: S) -> Result<S::Ok, S::Error> {
+        let x: Vec<Vec<(String, String)>> =
+            v.iter().map(|m| m.iter().map(|(k, v)| (enc(k), enc(v))).collect()).collect();
+        x.serialize(s)
+    }
+    pub fn deserialize<'de, D: Deserializer<'de>>(d: D) -> Result<Vec<Vec<(Vec<u8>, Vec<u8>)>>, D::Error> {
+        let x: Vec<Vec<(String, String)>> = Vec::deserialize(d)?;
+        Ok(x.into_iter().map(|m| m.into_iter().map(|(k, v)| (dec(&k), dec(&v))).collect()).collect())
+    }
+}
